@@ -32,7 +32,7 @@ PROFILE = {
 class C10:
     prop = "C10"
     level = "exploration"
-    budgets = {"quick": 1000, "thorough": 50000}
+    budgets = {"quick": 1500, "thorough": 50000}
     warm_refinement = True
 
     def generate(self, rnd, index, tier):
